@@ -24,9 +24,9 @@ def comparators(cb):
     return c
 
 
-def key_of(r):
-    n = r.choice([1, 2, 3, 7, 8, 8, 8, 9, 16, 31, 64, r.randrange(1, 65)])
-    return bytes(n) if r.random() < 0.15 else GC.rb(r, n)
+def key_of(r, coin=None):
+    import struct
+    return GC.xor_key(r, struct.pack("<I", K.MAGIC[coin]) if coin else None)
 
 
 def hook_part(ctx, r):
@@ -75,7 +75,7 @@ def correspondence(ctx):
         for k in range(2):
             x = K.Scenario(coin=coin, callback=cb, start=plain.start, verify=plain.verify)
             x.kvs, x.files, x.extra_files = plain.kvs, plain.files, plain.extra_files
-            x.xorkey = key_of(r)
+            x.xorkey = key_of(r, coin)
             x.meta = dict(plain.meta, i=i, k=k, keylen=len(x.xorkey), zero=not any(x.xorkey))
             xs.append(x)
         impl, model = bb.check(ctx, "xor-layouts:" + cb, [plain] + xs, comparators(cb), nontrivial=lambda s, m: s.xorkey is not None and any(s.xorkey))
